@@ -1,16 +1,18 @@
 #!/bin/sh
 # tools/run_seeded.sh [<seeded-id> ...]: apply each seeded change to /repo, run the check of the
 # property it breaks, undo the change.  Prints one line per seed: DETECTED / MISSED / INFRA.
-cd /verif
+cd "$(dirname "$0")/.."
+R=${VERIF_REPO:-/repo}   # a background sweep may point at a snapshot of the repository
+V=$(pwd)
 ids="$@"; [ -z "$ids" ] && ids=$(ls seeded)
 for id in $ids; do
   prop=$(python3 -c "import json;m=json.load(open('seeded/$id/meta.json'));print(m.get('check',m['property']))")
-  if ! git -C /repo apply --check /verif/seeded/$id/patch.diff 2>/dev/null; then echo "$id $prop PATCH-DOES-NOT-APPLY"; continue; fi
-  git -C /repo apply /verif/seeded/$id/patch.diff
+  if ! git -C $R apply --check $V/seeded/$id/patch.diff 2>/dev/null; then echo "$id $prop PATCH-DOES-NOT-APPLY"; continue; fi
+  git -C $R apply $V/seeded/$id/patch.diff
   mkdir -p out/seeded
   t=$(python3 -c "import json;print(json.load(open('seeded/$id/meta.json')).get('tier','${VERIF_TIER:-quick}'))")
   VERIF_TIER=$t ./check $prop > out/seeded/$id.log 2>&1; rc=$?
-  git -C /repo checkout -- . ; git -C /repo clean -fdq
+  git -C $R apply -R $V/seeded/$id/patch.diff
   case $rc in 1) r=DETECTED;; 0) r=MISSED;; *) r=INFRA;; esac
   line="$id $prop $r $(grep -m2 'finding:' out/seeded/$id.log | tr '\n' ' ')"
   echo "$line"; echo "$line" >> out/seeded_results.txt
